@@ -192,9 +192,18 @@ def gaussian_ref(P, data, name, idx, lam):
     prec = P["prec"]
     Q = prec * X.T @ X + np.diag(np.atleast_1d(lam))
     b = prec * X.T @ r
-    mag = np.abs(y) + mu_scratch(P, cl, d1, d2, absolute=True) + np.abs(X) @ np.abs(cur)
-    bscale = prec * np.abs(X).T @ mag
-    return Q, b, bscale, X
+    # magnitudes for the tolerances: the float32 design entries are sums/products of embeddings and may cancel,
+    # so their noise is relative to the same expression evaluated on absolute values
+    base_abs = mu_scratch(P0, cl, d1, d2, absolute=True)
+    Xabs = np.zeros((len(y), K))
+    for d in range(K):
+        e = np.zeros(K)
+        e[d] = 1.0
+        Xabs[:, d] = mu_scratch(with_block(P, name, idx, e if P[name].ndim == 2 else 1.0), cl, d1, d2, absolute=True) - base_abs
+    mag = np.abs(y) + mu_scratch(P, cl, d1, d2, absolute=True) + Xabs @ np.abs(cur)
+    bscale = prec * Xabs.T @ mag
+    qscale = max(float(np.max(np.abs(Q))), float(prec * np.max(Xabs.T @ Xabs))) if len(y) else float(np.max(np.abs(Q)))
+    return Q, b, bscale, qscale
 
 
 def close(a, b, scale, tol=TOL):
@@ -394,7 +403,7 @@ def check_sweep(spec, sweep_no, before, trace, data, y_ref, fail, counts):
                 fail("draw kind/shape at " + site, rec["kind"], "scalar normal", "C08:order")
                 return None
             lam = P["tau0"] if base == "W0" else P["phi0"][ix] * P["eta0"]
-            Q, b, bscale, X = gaussian_ref(P, data, base, ix, lam)
+            Q, b, bscale, _qs = gaussian_ref(P, data, base, ix, lam)
             q = float(Q[0, 0])
             mean_ref, sd_ref = float(b[0]) / q, 1.0 / np.sqrt(q)
             args = [float(rec["loc"]), float(rec["scale"])]
@@ -408,7 +417,7 @@ def check_sweep(spec, sweep_no, before, trace, data, y_ref, fail, counts):
                 lam = P["phi2"][ix] * P["eta2"]
             elif base == "V1":
                 lam = P["phi1"][ix] * P["eta1"]
-            Q, b, bscale, X = gaussian_ref(P, data, base, ix, lam)
+            Q, b, bscale, qs = gaussian_ref(P, data, base, ix, lam)
             has = (occC[ix] > 0) if base == "W" else (occ1[ix] + occ2[ix] > 0)
             if not has:
                 ok = (rec["kind"] == "normal" and rec["scale"].shape == (D,) and rec["loc"].shape == () and rec["size"] is None)
@@ -426,7 +435,6 @@ def check_sweep(spec, sweep_no, before, trace, data, y_ref, fail, counts):
                     return None
                 if not rec["rng_is_proxy"]:
                     fail("sample_mvn_from_precision is not given the model's generator", "rng is not the generator", "rng=self.rng", "C08:rng")
-                qs = float(np.max(np.abs(Q)))
                 args = rec["Q"].ravel().tolist() + rec["b"].tolist()
                 scale = [qs] * (D * D) + bscale.tolist()
                 if not close(rec["Q"], Q, qs) or not close(rec["b"], b, bscale):
